@@ -2,16 +2,19 @@
 # seedsweep.sh [ids...]: applies every kept seeded change to /repo in turn, runs the quick check of its property and
 # reports whether the check raises a VIOLATION (it must). /repo is restored after each seed. Not a registered check.
 cd /verif
+# SEED_REPO=<checkout of /repo's HEAD>: apply the patches there (check.py builds against it through VERIF_REPO and keeps
+# its evidence out of /verif/evidence), so that /repo and the committed evidence stay untouched
+repo=${SEED_REPO:-/repo}
 ids=("$@")
 [ ${#ids[@]} -eq 0 ] && ids=($(ls seeded))
 for id in "${ids[@]}"; do
   prop=${id%%-*}
-  if ! git -C /repo apply --check /verif/seeded/$id/patch.diff 2>/dev/null; then echo "$id: PATCH DOES NOT APPLY"; continue; fi
-  git -C /repo apply /verif/seeded/$id/patch.diff
-  out=$(VERIF_SCRATCH=${VERIF_SCRATCH:-/var/tmp} python3 check.py $prop quick 2>&1); rc=$?
-  git -C /repo checkout -- . 
+  if ! git -C $repo apply --check /verif/seeded/$id/patch.diff 2>/dev/null; then echo "$id: PATCH DOES NOT APPLY"; continue; fi
+  git -C $repo apply /verif/seeded/$id/patch.diff
+  if [ "$repo" = /repo ]; then out=$(python3 check.py $prop quick 2>&1); rc=$?; else out=$(VERIF_REPO=$repo python3 check.py $prop quick 2>&1); rc=$?; fi
+  git -C $repo checkout -- . 
   n=$(echo "$out" | grep -c "^VIOLATION")
   infra=$(echo "$out" | grep -c "^INFRA")
   if [ $n -gt 0 ]; then echo "$id: caught ($n signatures, exit $rc, infra $infra) $(echo "$out" | grep "^VIOLATION" | head -1 | sed 's/.*sig=//' | cut -c1-90)"; else echo "$id: MISSED (exit $rc, infra $infra)"; fi
 done
-git -C /repo status --short | head -3
+git -C $repo status --short | head -3
